@@ -169,6 +169,15 @@ func run(c *rig.Ctx) {
 	c.Part("lcdon", np, func(i int64, r *rig.Rng) {
 		p := prog.Generate(r, prog.Options{OAMFocus: true, AllOpcodes: i%2 == 0, Hardware: i%3 == 0, Interrupts: i%4 == 0, CartType: -1})
 		m := rig.MustNew(p.ROM, rig.Opts{})
+		// the STAT interrupt sources selected must play no part: any combination is set up
+		// front in two programs out of three (IE stays as the program leaves it)
+		if i%3 != 0 {
+			for k := 0; k < 4; k++ {
+				m.Step() // let the machine settle before the harness touches it
+			}
+			m.Mem.Write(0xff41, r.U8()&0x78)
+			c.Count("lcdon_programs_with_stat_sources", 1)
+		}
 		f := lockstep.New(m)
 		w := &watcher{c: c, m: m, f: f, label: "generated program"}
 		w.what = func() any { return map[string]any{"program": p.Describe()} }
